@@ -11,6 +11,9 @@ RULE = (
     "statistics functions, plus analyses through SpectrumAnalyzer.compute_single_bin/compute, each judged against a "
     "direct evaluation of X_k(w)=sum_n w[n](x_k[n]-trend_k[n])exp(-iwn) (R-DFT, longdouble accumulation, Legendre "
     "least-squares trend) within the rounding budget 64*eps*L*min(L,1/|sin w|)*S and against the other backends. "
+    "For mean removal (order 0) the budget is the tighter centred-scale bound: recurrence error on the centred samples plus "
+    "the mean's own rounding (4 eps L max|x|) times |W(w)| (tol.order0_err), so rounding proportional to a pedestal of up to "
+    "1e12 times the signal is not tolerated; start vectors include progressions and progressions with moved interior elements. "
     "A case is non-trivial when a defect would be visible: cross mode with |Im XY| > 1e3*budget (conjugation "
     "visible), or K>=2 with M2 > 1e3*budget, or order>=1 with L>order+1 and a non-zero detrended spectrum; distinct = "
     "distinct canonical hash of the fully materialisable case description."
